@@ -238,12 +238,16 @@ def validServerName (cfg : Cfg) (hs : Headers) : Bool :=
 inductive Switch where | none | h2c | prior
 deriving Repr, DecidableEq
 
+def reqIsH2c (r : ReqEv) : Bool := ((hdr "upgrade".b r.headers).map Bytes.lower) == some "h2c".b
+
+def reqHasBody (r : ReqEv) : Bool :=
+  r.headers.any (fun h => let n := Bytes.lower (Bytes.stripL1 h.1); n == "content-length".b || n == "transfer-encoding".b)
+
+def reqIsPreface (r : ReqEv) : Bool := r.method == "PRI".b && r.target == "*".b && r.version == "2.0".b
+
 def checkProtocol (r : ReqEv) : Switch :=
-  let upgrade := hdr "upgrade".b r.headers
-  let hasBody := r.headers.any (fun h =>
-    let n := Bytes.lower (Bytes.stripL1 h.1); n == "content-length".b || n == "transfer-encoding".b)
-  if (upgrade.map Bytes.lower) == some "h2c".b && !hasBody then .h2c
-  else if r.method == "PRI".b && r.target == "*".b && r.version == "2.0".b then .prior
+  if reqIsH2c r && !reqHasBody r then .h2c
+  else if reqIsPreface r then .prior
   else .none
 
 /-- `_create_stream`'s decision: WebSocket iff GET + Upgrade: websocket + a Connection `upgrade` token -/
@@ -348,8 +352,9 @@ def onLibEvBody (cfg : Cfg) (st : St) (o0 : List Out) (e : LibEv) : Option (St Ã
       match err with
       | some _ => none                               -- uncaught exception inside the connection handler
       | none =>
-        let (st2, outs, _) := runWsEvs cfg (st.setObj i (.ws s')) wevs
-        some (st2, o0 ++ puts.map (Out.putWs i) ++ outs)
+        let r := runWsEvs cfg (st.setObj i (.ws s')) wevs
+        -- a LocalProtocolError that `_send_h11_event` re-raises here is an uncaught exception of the handler
+        if r.2.2 then none else some (r.1, o0 ++ puts.map (Out.putWs i) ++ r.2.1)
     | _, _ => some ({ st with pc := .idle }, o0)
 
 def onLibEv (cfg : Cfg) (st : St) (e : LibEv) : Option (St Ã— List Out) :=
